@@ -585,7 +585,7 @@ func init() {
 		Prop: "C18", Level: "exploration",
 		Gen:  genC18,
 		Exec: execC18,
-		Quick: 130, Thorough: 4000,
+		Quick: 390, Thorough: 12000,
 		Chunk:       5,
 		MaxBadShare: 0.2,
 		NonTrivial:  func(res *Result) bool { return res.Status == "ok" && res.Stats["reach.override-changes-results"] > 0 },
